@@ -52,6 +52,263 @@ OWN_NAMES = ["c11:cumprod", "c11:lax_cumprod", "c11:bitcast", "c11:silu_mul_sigm
 OWN_QUICK = ["c11:cumprod", "c11:bitcast", "c11:silu_mul_sigmoid", "c11:reductions", "c11:reduce_all", "c11:cumprod_in_loop"]
 
 
+# ---------------------------------------------------------------------------------- opset gates
+# Every place of /repo/jax2onnx (plugins + converter) where the TARGET OPSET decides what is emitted.  The inventory is
+# re-derived from the AST on every run (fail closed): a comparison on an opset value that is not in GATES, or a function
+# that reads the opset and is neither a gate site nor in PASS_THROUGH, breaks an obligation.  Each gate names own
+# programs (dtypes / attribute values chosen so that the two branches differ) that are exported at constant-1, constant,
+# constant+1 (clipped to 21..newest) and must pass onnx.checker(full_check), the Coq validator, the ORT load and agree
+# NUMERICALLY WITH EAGER JAX.
+GATES = {
+    "converter/ir_optimizations.py::rewrite_mul_sigmoid_as_swish_ir::<24": ["g:mul_sigmoid"],
+    "plugins/jax/nn/silu.py::SiluPlugin.lower::>=24": ["g:silu"],
+    "plugins/flax/nnx/rms_norm.py::RMSNormPlugin.lower::>=23": ["g:rms_default_eps_small", "g:rms_eps_1e-3_small", "g:rms_eps_1e-5_small",
+                                                                 "g:linen_rms_default_eps_small"],
+    "plugins/flax/nnx/group_norm.py::GroupNormPlugin.lower::>=21": ["g:group_norm_native_small", "g:group_norm_small"],
+    "plugins/flax/nnx/dot_product_attention.py::DotProductAttentionPlugin.lower::>=23": ["g:dpa", "g:dpa_causal"],
+    "plugins/equinox/eqx/nn/multihead_attention.py::MultiheadAttentionPlugin.lower::>=23": ["g:eqx_mha"],
+    "plugins/equinox/eqx/nn/rotary_positional_embedding.py::RotaryPositionalEmbeddingPlugin.lower::>=23": ["g:eqx_rope"],
+    "plugins/equinox/eqx/nn/adaptive_pool.py::AdaptivePoolPlugin.lower::>=18": ["g:eqx_adaptive_pool_nondivisible"],
+    "plugins/jax/random/categorical.py::RandomCategoricalPlugin.lower::<=21": ["g:categorical"],
+    "plugins/jax/numpy/arange.py::JnpArangePlugin.lower::>=27": ["g:arange_f16", "g:arange_bf16", "g:arange_f32", "g:arange_i32"],
+    "plugins/jax/lax/iota.py::IotaPlugin.lower::>=27": ["g:iota_f16", "g:iota_bf16", "g:iota_f32", "g:iota_i32"],
+    "plugins/jax/numpy/clip.py::JnpClipPlugin.lower::>=11": ["g:clip"],
+    "plugins/jax/lax/dynamic_update_slice.py::DynamicUpdateSlicePlugin.lower::>=24": ["g:dus_cache", "g:dus_general"],
+    "plugins/jax/lax/_opset_utils.py::builder_reduce_with_axes::<axes_input_since": ["g:reductions"],
+    "plugins/jax/lax/reduce_window_sum.py::ReduceWindowSumPlugin.lower::>=22": ["g:reduce_window_abs", "g:reduce_window_plain"],
+    "plugins/jax/lax/scatter_utils.py::_supports_legacy_scatter::<=10": ["g:scatter_set"],
+    "plugins/jax/image/resize.py::ImageResizePlugin.lower::<=9": ["g:resize_linear"],
+}
+# programs without a gate of their own: normalisation attribute defaults (ONNX LayerNormalization epsilon default 1e-5)
+UNGATED_PROGRAMS = {"g:layer_norm_default_eps_small": [22, 23, 24], "g:layer_norm_eps_1e-3_small": [23]}
+# comparisons on values DERIVED from an opset decision (the taint of the scanner reaches them); covered by the gate's programs
+DERIVED = {
+    "plugins/jax/lax/iota.py::IotaPlugin.lower::!=target_dtype": "range_dtype chosen by the >=27 gate",
+    "plugins/jax/numpy/arange.py::JnpArangePlugin.lower::!=target_enum": "range dtype chosen by the >=27 gate",
+    "plugins/jax/numpy/arange.py::JnpArangePlugin.lower::==target_enum": "range dtype chosen by the >=27 gate",
+    "converter/conversion_api.py::_attach_ir_functions::not-containsdom": "membership in the opset-import table, not a version test",
+}
+# functions that read the target opset only to hand it on (sub-builders, function scopes, opset imports)
+PASS_THROUGH = {
+    "converter/conversion_api.py::_attach_ir_functions", "converter/conversion_api.py::_create_ir_context",
+    "converter/conversion_api.py::to_onnx", "converter/function_scope.py::FunctionScope.__init__",
+    "converter/function_scope.py::FunctionScope.to_ir_function", "converter/ir_builder.py::IRBuilder.__init__",
+    "converter/ir_context.py::IRContext.__init__", "converter/ir_context.py::IRContext.opset",
+    "converter/ir_optimizations.py::_graph_default_opset",
+    "plugins/equinox/eqx/nn/multihead_attention.py::_builder_opset",
+    "plugins/equinox/eqx/nn/rotary_positional_embedding.py::_builder_opset",
+    "plugins/flax/nnx/dot_product_attention.py::_builder_opset",
+    "plugins/jax/lax/_control_flow_utils.py::make_subgraph_context", "plugins/jax/lax/cond.py::CondPlugin._build_branch_graph",
+    "plugins/jax/lax/fori_loop.py::_build_body_graph", "plugins/jax/lax/scan.py::ScanPlugin._lower_with_scan_inputs",
+    "plugins/jax/lax/scan.py::ScanPlugin._lower_without_scan_inputs", "plugins/jax/lax/while_loop.py::_build_loop_body_graph",
+}
+_OPSET_EXPR = re.compile(r"(?<![A-Za-z0-9_])_?[a-z_]*opset[a-z_]*(?![A-Za-z0-9])|'opset'|_graph_default_opset\(|_builder_opset\(")
+_FLIP = {"<": ">", "<=": ">=", ">": "<", ">=": "<=", "==": "==", "!=": "!=", "in": "contains", "not in": "not-contains"}
+
+
+def scan_gates(repo):
+    """-> (gates {key: [int constants]}, readers {file::func}) from the AST of <repo>/jax2onnx/{plugins,converter}"""
+    import ast
+    ops = {ast.Lt: "<", ast.LtE: "<=", ast.Gt: ">", ast.GtE: ">=", ast.Eq: "==", ast.NotEq: "!=", ast.In: "in", ast.NotIn: "not in"}
+    root = os.path.join(repo, "jax2onnx")
+    gates, readers = {}, set()
+    for sub in ("plugins", "converter"):
+        for d, dirs, fs in os.walk(os.path.join(root, sub)):
+            dirs[:] = sorted(x for x in dirs if x != "__pycache__")
+            for f in sorted(fs):
+                if not f.endswith(".py"):
+                    continue
+                path = os.path.join(d, f)
+                rel = os.path.relpath(path, root)
+                tree = ast.parse(open(path).read())
+
+                def carries(node, tainted):
+                    txt = ast.unparse(node)
+                    if _OPSET_EXPR.search(txt):
+                        return True
+                    return any(isinstance(x, ast.Name) and x.id in tainted for x in ast.walk(node))
+
+                def visit(node, stack):
+                    for ch in ast.iter_child_nodes(node):
+                        if isinstance(ch, (ast.FunctionDef, ast.AsyncFunctionDef)):
+                            fn_scan(ch, stack + [ch.name])
+                            visit(ch, stack + [ch.name])
+                        elif isinstance(ch, ast.ClassDef):
+                            visit(ch, stack + [ch.name])
+                        else:
+                            visit(ch, stack)
+
+                def fn_scan(fn, stack):
+                    qual = f"{rel}::{'.'.join(stack)}"
+                    own = [x for x in ast.walk(fn)]
+                    inner = {id(y) for x in own if x is not fn and isinstance(x, (ast.FunctionDef, ast.AsyncFunctionDef)) for y in ast.walk(x)}
+                    own = [x for x in own if id(x) not in inner or isinstance(x, (ast.FunctionDef,)) and False]
+                    tainted = set()
+                    for _ in range(3):      # names assigned from opset-carrying expressions
+                        for x in own:
+                            if isinstance(x, ast.Assign) and carries(x.value, tainted):
+                                for t in x.targets:
+                                    if isinstance(t, ast.Name):
+                                        tainted.add(t.id)
+                            elif isinstance(x, ast.AnnAssign) and x.value is not None and isinstance(x.target, ast.Name) and carries(x.value, tainted):
+                                tainted.add(x.target.id)
+                    reads = False
+                    for x in own:
+                        if isinstance(x, ast.Attribute) and isinstance(x.ctx, ast.Load) and x.attr in ("opset", "opset_imports", "opset_import"):
+                            reads = True
+                        elif isinstance(x, ast.Constant) and x.value in ("opset", "opset_imports"):
+                            reads = True
+                        elif isinstance(x, ast.Name) and isinstance(x.ctx, ast.Load) and (x.id in ("opset", "_graph_default_opset", "_builder_opset") or x.id in tainted):
+                            reads = True
+                        if isinstance(x, ast.Compare) and len(x.ops) == 1 and type(x.ops[0]) in ops:
+                            l, r = x.left, x.comparators[0]
+                            lc, rc = carries(l, tainted), carries(r, tainted)
+                            if not (lc or rc):
+                                continue
+                            op = ops[type(x.ops[0])]
+                            other = r if lc else l
+                            if not lc:
+                                op = _FLIP[op]
+                            key = f"{qual}::{op}{ast.unparse(other)}"
+                            consts = [int(c.value) for c in ast.walk(other) if isinstance(c, ast.Constant) and isinstance(c.value, int) and not isinstance(c.value, bool)]
+                            gates.setdefault(key, []).extend(consts)
+                        elif isinstance(x, ast.Compare) and carries(x, tainted) and not all(isinstance(o, (ast.Is, ast.IsNot)) for o in x.ops):
+                            gates.setdefault(f"{qual}::{ast.unparse(x)}", [])
+                    if reads:
+                        readers.add(qual)
+                visit(tree, [])
+    return gates, readers
+
+
+def _gate_opsets(consts, newest):
+    vs = sorted({v for c in consts for v in (c - 1, c, c + 1) if BASELINE <= v <= newest})
+    if not vs:
+        vs = [BASELINE] if (not consts or max(consts) < BASELINE) else [newest]
+    return vs
+
+
+_GATE_PROGRAMS = None
+
+
+def _gate_programs():
+    """name -> dict(fn, inputs (numpy), kwargs (extra to_onnx arguments), numeric).  Deterministic: every process that
+    calls this builds the same modules and inputs."""
+    global _GATE_PROGRAMS
+    if _GATE_PROGRAMS is not None:
+        return _GATE_PROGRAMS
+    import numpy as np
+    import jax
+    import jax.numpy as jnp
+    from jax import lax
+    from flax import nnx
+    import flax.linen as nn
+    f32 = np.float32
+
+    def rng(name):
+        return np.random.default_rng(int(hashlib.sha1(name.encode()).hexdigest()[:8], 16))
+
+    def small(name, *shape):          # low-magnitude activations: the epsilon of a normalisation dominates the variance
+        return (2e-3 * rng(name).standard_normal(shape)).astype(f32)
+
+    def unit(name, *shape):
+        return rng(name).standard_normal(shape).astype(f32)
+    P = {}
+
+    def add(name, fn, inputs, numeric=True, **kwargs):
+        P[name] = {"fn": fn, "inputs": inputs, "kwargs": kwargs, "numeric": numeric}
+    add("g:mul_sigmoid", lambda x: x * jax.nn.sigmoid(x), [unit("ms", 2, 3)])
+    add("g:silu", lambda x: jax.nn.silu(x), [unit("silu", 2, 3)])
+    for nm, eps in (("g:rms_default_eps_small", None), ("g:rms_eps_1e-3_small", 1e-3), ("g:rms_eps_1e-5_small", 1e-5)):
+        mod = nnx.RMSNorm(8, rngs=nnx.Rngs(0)) if eps is None else nnx.RMSNorm(8, epsilon=eps, rngs=nnx.Rngs(0))
+        add(nm, (lambda x, _m=mod: _m(x)), [small(nm, 4, 8)])
+    lrms = nn.RMSNorm()
+    lvars = lrms.init(jax.random.PRNGKey(0), jnp.zeros((4, 8), f32))
+    add("g:linen_rms_default_eps_small", (lambda x: lrms.apply(lvars, x)), [small("lrms", 4, 8)])
+    for nm, eps in (("g:layer_norm_default_eps_small", None), ("g:layer_norm_eps_1e-3_small", 1e-3)):
+        mod = nnx.LayerNorm(8, rngs=nnx.Rngs(0)) if eps is None else nnx.LayerNorm(8, epsilon=eps, rngs=nnx.Rngs(0))
+        add(nm, (lambda x, _m=mod: _m(x)), [small(nm, 4, 8)])
+    gn = nnx.GroupNorm(num_features=8, num_groups=2, rngs=nnx.Rngs(0))
+    add("g:group_norm_native_small", (lambda x: gn(x)), [small("gn", 2, 4, 4, 8)], normalization_mode="prefer_native")
+    add("g:group_norm_small", (lambda x: gn(x)), [small("gn", 2, 4, 4, 8)])
+    add("g:dpa", lambda q, k, v: nnx.dot_product_attention(q, k, v), [unit("q", 2, 4, 2, 8), unit("k", 2, 4, 2, 8), unit("v", 2, 4, 2, 8)])
+    add("g:dpa_causal", lambda q, k, v: nnx.dot_product_attention(q, k, v, mask=jnp.tril(jnp.ones((1, 1, 4, 4), bool))),
+        [unit("q2", 2, 4, 2, 8), unit("k2", 2, 4, 2, 8), unit("v2", 2, 4, 2, 8)])
+    try:
+        import equinox as eqx
+        mha = eqx.nn.MultiheadAttention(num_heads=2, query_size=8, key=jax.random.PRNGKey(0))
+        add("g:eqx_mha", (lambda q, k, v: mha(q, k, v)), [unit("eq", 5, 8), unit("ek", 5, 8), unit("ev", 5, 8)])
+        rope = eqx.nn.RotaryPositionalEmbedding(embedding_size=8)
+        add("g:eqx_rope", (lambda x: rope(x)), [unit("rope", 6, 8)])
+        apool = eqx.nn.AdaptiveAvgPool1d(3)
+        add("g:eqx_adaptive_pool_nondivisible", (lambda x: apool(x)), [unit("apool", 2, 10)])
+    except ImportError:
+        pass
+    add("g:categorical", lambda logits: jax.random.categorical(jax.random.PRNGKey(0), logits),
+        [np.asarray([[0.1, 0.2, 0.7], [0.2, 0.7, 0.1]], f32)], numeric=False)
+    for suffix, dt in (("f16", jnp.float16), ("bf16", jnp.bfloat16), ("f32", jnp.float32), ("i32", jnp.int32)):
+        add("g:iota_" + suffix, (lambda x, _d=dt: x + lax.broadcasted_iota(_d, (3, 5), 1).astype(jnp.float32)), [unit("iota" + suffix, 3, 5)])
+        add("g:arange_" + suffix, (lambda x, _d=dt: x + jnp.arange(5, dtype=_d).astype(jnp.float32)), [unit("arange" + suffix, 3, 5)])
+    add("g:clip", lambda x: jnp.clip(x, -0.5, 0.5), [unit("clip", 3, 4)])
+    add("g:dus_cache", lambda c, u, i: lax.dynamic_update_slice(c, u, (0, i, 0)),
+        [unit("dusc", 2, 8, 4), unit("dusu", 2, 1, 4), np.asarray(3, np.int32)])
+    add("g:dus_general", lambda c, u, i: lax.dynamic_update_slice(c, u, (i, 1)),
+        [unit("dgc", 5, 4), unit("dgu", 2, 2), np.asarray(2, np.int32)])
+    add("g:reductions", lambda x: jnp.max(x, axis=1) + jnp.min(x, axis=1) + jnp.sum(x, axis=1) + jnp.prod(x, axis=1)
+        + jnp.mean(x, axis=1) + jnp.sum(x * x, axis=1) + jnp.sum(jnp.abs(x), axis=1) + jax.nn.logsumexp(x, axis=1), [unit("red", 3, 4)])
+    # 2-d windows: onnxruntime's LpPool kernel stops at 3 spatial dimensions
+    add("g:reduce_window_abs", lambda x: lax.reduce_window(jnp.abs(x), 0.0, lax.add, (2, 2), (1, 1), "VALID"), [unit("rwa", 4, 6)])
+    add("g:reduce_window_plain", lambda x: lax.reduce_window(x, 0.0, lax.add, (2, 2), (2, 2), "VALID"), [unit("rwp", 4, 6)])
+    add("g:scatter_set", lambda x, v: x.at[jnp.asarray([0, 2])].set(v), [unit("scx", 4, 3), unit("scv", 2, 3)])
+    add("g:resize_linear", lambda x: jax.image.resize(x, (1, 6, 6, 2), "linear", antialias=False), [unit("rsz", 1, 3, 3, 2)])
+    _GATE_PROGRAMS = P
+    return P
+
+
+def _gate_reference(names):
+    """eager JAX results of the gate programs, computed in a process that never exports (a conversion may leave
+    plugin primitives in jit caches)."""
+    warnings.simplefilter("ignore")
+    import numpy as np
+    import jax
+    import jax.numpy as jnp
+    out = {}
+    progs = _gate_programs()
+    for nm in names:
+        if nm not in progs:
+            out[nm] = "program not defined"
+            continue
+        p = progs[nm]
+        try:
+            res = p["fn"](*[jnp.asarray(a) for a in p["inputs"]])
+            out[nm] = [np.asarray(x.astype(jnp.float32) if x.dtype == jnp.bfloat16 else x) for x in jax.tree_util.tree_leaves(res)]
+        except Exception as e:  # noqa
+            out[nm] = f"{type(e).__name__}: {str(e)[:200]}"
+    return out
+
+
+def _compare_with_jax(ref, got):
+    """values only (shape + numbers; dtype agreement is another property).  None when equal."""
+    import numpy as np
+    if len(ref) != len(got):
+        return f"number of outputs {len(ref)} (jax) vs {len(got)} (onnx)"
+    for i, (a, b) in enumerate(zip(ref, got)):
+        a, b = np.asarray(a), np.asarray(b)
+        if a.shape != b.shape:
+            return f"output {i}: shape {a.shape} (jax) vs {b.shape} (onnx)"
+        a64, b64 = a.astype(np.float64), b.astype(np.float64)
+        half = a.dtype.itemsize <= 2 and a.dtype.kind == "f"
+        tol = 2e-2 if half else 1e-3
+        fin = np.abs(a64[np.isfinite(a64)])
+        scale = float(fin.max()) if fin.size else 1.0
+        with warnings.catch_warnings():
+            warnings.simplefilter("ignore")
+            if not np.allclose(a64, b64, rtol=tol, atol=1e-7 + 1e-4 * tol * 10 * scale, equal_nan=True):
+                j = int(np.nanargmax(np.abs(a64 - b64))) if a64.size else 0
+                return (f"output {i}: jax {a64.flat[j]!r} vs onnx {b64.flat[j]!r} at flat index {j} "
+                        f"(max abs difference {float(np.nanmax(np.abs(a64 - b64)))!r}, |jax|max {scale!r})")
+    return None
+
+
 # ---------------------------------------------------------------------------------- worker side
 def _walk_graphs(g):
     import onnx
@@ -182,6 +439,11 @@ def _export(kind, ident, opset):
     if kind == "extra":
         return ident, exports.export_extra(ident, **over), None
     from jax2onnx import to_onnx
+    if kind == "gate":
+        import jax
+        p = _gate_programs()[ident]
+        spec = [jax.ShapeDtypeStruct(a.shape, a.dtype) for a in p["inputs"]]
+        return ident, to_onnx(p["fn"], spec, **over, **p["kwargs"]), p["inputs"]
     fn, spec = _own_programs()[ident]
     return ident, to_onnx(fn, spec, **over), None
 
